@@ -337,6 +337,7 @@ pub fn run(ctx: &Ctx) -> (Report, String) {
         rep.require("sums_checked", 1000);
         rep.require("neighbour_configs_checked", 50_000);
         rep.require("neighbour_configs_with_stuffing", 2_000);
+        rep.require("four_vector_mbs_with_three_zero_differentials_and_distinct_vectors", 1_000);
         rep.exhaustive = Some(rep.get("pairs_checked") >= 2 * 64 * 64 * 2 && rep.violations.is_empty());
     }
     (rep, rule())
@@ -484,8 +485,34 @@ fn shard(ctx: &Ctx, s: usize, flavours: &[Flavour], rep: &mut Report) {
                         kinds.push(2);
                     }
                     2..=4 => {
-                        let v: [[i32; 2]; 4] = std::array::from_fn(|_| [rng.range(-32, 31) as i32, rng.range(-32, 31) as i32]);
+                        let mut v: [[i32; 2]; 4] = std::array::from_fn(|_| [rng.range(-32, 31) as i32, rng.range(-32, 31) as i32]);
+                        // a third of the four-vector macroblocks code zero differentials for some or all of
+                        // vectors 2..4: each of those vectors then *is* its own median predictor
+                        if rng.chance(1, 3) {
+                            let all = rng.chance(1, 2);
+                            for b in 1..4 {
+                                if all || rng.chance(1, 2) {
+                                    let d = diffs_for(&mvs, i, mbw, &v, true);
+                                    for c in 0..2 {
+                                        let mut x = v[b][c] - d[b][c];
+                                        while x > 31 {
+                                            x -= 64;
+                                        }
+                                        while x < -32 {
+                                            x += 64;
+                                        }
+                                        v[b][c] = x;
+                                    }
+                                }
+                            }
+                        }
                         let d = diffs_for(&mvs, i, mbw, &v, true);
+                        if d[1..].iter().all(|x| *x == [0, 0]) {
+                            rep.count("four_vector_mbs_with_three_zero_differentials");
+                            if (1..4).any(|b| v[b] != v[0]) {
+                                rep.count("four_vector_mbs_with_three_zero_differentials_and_distinct_vectors");
+                            }
+                        }
                         mbs.push(inter_mb(true, d));
                         mvs.push(v);
                         kinds.push(1);
